@@ -11,35 +11,50 @@ CONSTANTS KPool,     \* sequence of Kripke values [n, R, L]
           FPool,     \* sequence of [logic |-> "CTL"|"LTL"|"CTLS", f |-> formula]
           BadPool,   \* sequence of [logic, f]: CTL* objects that are NOT state formulas of the called logic
           MaxRes, Depth
-VARIABLES res,       \* result id -> set of states (may contain the foreign marker -1 after a caller mutation)
+VARIABLES ks,        \* the caller's Kripke structures (values); the caller may edit them between calls
+          res,       \* result id -> set of states (may contain the foreign marker after a caller mutation)
           fairmemo,  \* <<k, j, fair>> -> answer adopted for calls with fairness constraints (see FairAnswer)
           hist
-vars == <<res, fairmemo, hist>>
+vars == <<ks, res, fairmemo, hist>>
 Foreign == 999
 ResIds == 1..MaxRes
 FreeRes == CHOOSE i \in ResIds : i \notin DOMAIN res /\ \A j \in ResIds : j < i => j \in DOMAIN res
 Put(p, id, v) == [x \in DOMAIN p \cup {id} |-> IF x = id THEN v ELSE p[x]]
 \* the answer of <logic>.modelcheck(K, f) without fairness constraints
 AnswerOf(K, f) == SatStar(K, f)
-Answer(k, j) == AnswerOf(KPool[k], FPool[j].f)
+Answer(k, j) == AnswerOf(ks[k], FPool[j].f)
 Fairs == {"none", "all", "empty", "some"}
 \* With fairness constraints the VALUE is C15's business; this machine only requires the call
 \* to be a function of its arguments: the first answer for <<k, j, fair>> is adopted.
 FairKeys == DOMAIN fairmemo
-Init == res = <<>> /\ fairmemo = <<>> /\ hist = <<>>
+Init == ks = KPool /\ res = <<>> /\ fairmemo = <<>> /\ hist = <<>>
 Call(k, j, mode, fair) ==
   /\ DOMAIN res # ResIds
   /\ \E a \in (IF fair = "none" THEN {Answer(k, j)}
                ELSE IF <<k, j, fair>> \in FairKeys THEN {fairmemo[<<k, j, fair>>]}
-               ELSE SUBSET States(KPool[k])) :
+               ELSE SUBSET States(ks[k])) :
        /\ res' = Put(res, FreeRes, a)
        /\ fairmemo' = IF fair = "none" THEN fairmemo ELSE Put(fairmemo, <<k, j, fair>>, a)
   /\ hist' = Append(hist, [op |-> "call", k |-> k, j |-> j, mode |-> mode, fair |-> fair, r |-> FreeRes])
+  /\ UNCHANGED ks
 \* a call with a formula outside the logic is rejected with TypeError and has no effect whatsoever
 \* (C07 on the error path: the caller's objects are intact after a rejected call, with or without F)
 BadCall(k, b, fair) ==
   /\ hist' = Append(hist, [op |-> "badcall", k |-> k, b |-> b, fair |-> fair])
-  /\ UNCHANGED <<res, fairmemo>>
+  /\ UNCHANGED <<ks, res, fairmemo>>
+\* the caller edits one of its own structures between calls (labels(s).add / .discard, add_edge between existing
+\* states): later answers must follow the edited structure - nothing may be remembered about the old one
+EditLabel(k, st, a, add) ==
+  /\ ks' = [ks EXCEPT ![k].L[st] = IF add THEN @ \cup {a} ELSE @ \ {a}]
+  /\ fairmemo' = [key \in {x \in DOMAIN fairmemo : x[1] # k} |-> fairmemo[key]]
+  /\ hist' = Append(hist, [op |-> "editlabel", k |-> k, s |-> st, a |-> a, add |-> add])
+  /\ UNCHANGED res
+EditEdge(k, st, d) ==
+  /\ <<st, d>> \notin ks[k].R
+  /\ ks' = [ks EXCEPT ![k].R = @ \cup {<<st, d>>}]
+  /\ fairmemo' = [key \in {x \in DOMAIN fairmemo : x[1] # k} |-> fairmemo[key]]
+  /\ hist' = Append(hist, [op |-> "editedge", k |-> k, s |-> st, d |-> d])
+  /\ UNCHANGED res
 \* the caller does what it likes with a returned set
 Mutate(r, kind) ==
   /\ r \in DOMAIN res
@@ -47,11 +62,13 @@ Mutate(r, kind) ==
                                  [] kind = "add" -> @ \cup {Foreign}
                                  [] kind = "discard" -> IF @ = {} THEN {} ELSE @ \ {CHOOSE x \in @ : \A y \in @ : x <= y}]
   /\ hist' = Append(hist, [op |-> "mutate", r |-> r, kind |-> kind])
-  /\ UNCHANGED fairmemo
+  /\ UNCHANGED <<ks, fairmemo>>
 Drop(r) == /\ r \in DOMAIN res /\ res' = [x \in DOMAIN res \ {r} |-> res[x]]
-           /\ hist' = Append(hist, [op |-> "drop", r |-> r]) /\ UNCHANGED fairmemo
+           /\ hist' = Append(hist, [op |-> "drop", r |-> r]) /\ UNCHANGED <<ks, fairmemo>>
 Next == \/ \E k \in 1..Len(KPool), j \in 1..Len(FPool), mode \in {"obj", "text"}, fair \in Fairs : Call(k, j, mode, fair)
         \/ \E k \in 1..Len(KPool), b \in 1..Len(BadPool), fair \in Fairs : BadCall(k, b, fair)
+        \/ \E k \in 1..Len(KPool), st \in 0..2, a \in {"p", "q"}, add \in BOOLEAN : st \in States(ks[k]) /\ EditLabel(k, st, a, add)
+        \/ \E k \in 1..Len(KPool), st \in 0..2, d \in 0..2 : st \in States(ks[k]) /\ d \in States(ks[k]) /\ EditEdge(k, st, d)
         \/ \E r \in ResIds, kind \in {"clear", "add", "discard"} : Mutate(r, kind)
         \/ \E r \in ResIds : Drop(r)
 Spec == Init /\ [][Next]_vars
@@ -60,12 +77,14 @@ IsStep == Len(hist') = Len(hist) + 1
 \* C19: a call creates exactly one new result, a subset of the structure's states, and touches no other result
 FreshResult == [][(IsStep /\ Last.op = "call") =>
                    /\ Last.r \notin DOMAIN res
-                   /\ res'[Last.r] \subseteq States(KPool[Last.k])
+                   /\ res'[Last.r] \subseteq States(ks[Last.k])
                    /\ \A r \in DOMAIN res : res'[r] = res[r]]_vars
 \* C19: mutating a result changes that result only
 ResultOwned == [][(IsStep /\ Last.op = "mutate") => \A r \in DOMAIN res \ {Last.r} : res'[r] = res[r]]_vars
 \* C07: without fairness constraints the answer depends on the arguments only - whatever happened before
 AnswerStable == [][(IsStep /\ Last.op = "call" /\ Last.fair = "none") => res'[Last.r] = Answer(Last.k, Last.j)]_vars
+\* only the caller's own edits change a structure
+OnlyEditsChangeK == [][(IsStep /\ Last.op \notin {"editlabel", "editedge"}) => ks' = ks]_vars
 Emit == (Len(hist) = Depth) => PrintT(<<"BEHAVIOUR", ToJson(hist)>>)
 Bound == Len(hist) <= Depth
 =======================================================================
